@@ -44,8 +44,10 @@ func checkC02(run *Run, res *Result) {
 				sessionHadDoc[e.M] = len(snap) > 0
 				high[e.M] = map[int]uint64{}
 			}
-		case journal.KSeqnos:
-			if e.S == "d" && e.I < 0 && high[e.M] != nil {
+		case journal.KNote:
+			// the vBuckets' own high seqnos at the moment the member's DCP connection asked for seqnos (whatever
+			// kind of seqno it asked for)
+			if e.S == "vbhighs" && high[e.M] != nil {
 				for j := 0; j+1 < len(e.L); j += 2 {
 					high[e.M][int(e.L[j])] = e.L[j+1]
 				}
@@ -148,6 +150,20 @@ func checkC02(run *Run, res *Result) {
 				}
 			}
 		}
+	}
+	// no fault was scripted, every stored checkpoint is readable and lies at or below its vBucket's high seqno:
+	// the session must be requested, not refused
+	expectDeath, anyReq := false, false
+	for i := range run.Evs {
+		switch e := &run.Evs[i]; e.K {
+		case journal.KExpect:
+			expectDeath = true
+		case journal.KSReq:
+			anyReq = true
+		}
+	}
+	if res.DeathKind == "library-failstop" && !expectDeath && !anyReq {
+		res.violate("C02", "R6-start-up-refused", len(run.Evs), "plain", "the client terminated during start-up (%s) although nothing was wrong with the stored checkpoints: no stream was requested", res.FailStop)
 	}
 	// custom backend in read-only mode: no Save call at all
 	if cfg.ReadOnly {
